@@ -132,6 +132,10 @@ def build_tbl(
             raise error.UnsuspectedHangeulDivisionError(
                 metadata, "0으로 나누려고 했습니다."
             ) from None
+        except OverflowError:
+            raise error.UnsuspectedHangeulArithmeticError(
+                metadata, "정수가 실수로 나타내기에 너무 큽니다."
+            ) from None
         return utils.guessed_wrap(value)
 
     def _remainder(
@@ -159,6 +163,10 @@ def build_tbl(
                 ) from None
             raise error.UnsuspectedHangeulArithmeticError(
                 metadata, f"{dividend}을 {divider}로 나눈 나머지를 구할 수 없습니다."
+            ) from None
+        except OverflowError:
+            raise error.UnsuspectedHangeulArithmeticError(
+                metadata, "정수가 실수로 나타내기에 너무 큽니다."
             ) from None
 
     return {
